@@ -76,6 +76,21 @@ def events(rng, homs, thorough):
             yield "unitvec", {"a": a, "n": nn}, float(nn), (lambda A=A: b.unitvec(A)), "base.unitvec"
             yield "unitvec_norm", {"a": a, "n": nn}, None, \
                 (lambda A=A, nn=nn, s=s: np.r_[np.asarray(b.unitvec_norm(A)[0], dtype=float) * nn, b.unitvec_norm(A)[1] / s]), "base.unitvec_norm"
+    # unit twists: S = magnitude * unit twist, the magnitude being |w|, or |v| when there is no rotation (never negative)
+    tw3 = [((1, -2, 5, 3, 4, 0), 5), ((0, 0, 0, 1, 2, 2), 3), ((7, 1, -1, 2, -3, 6), 7), ((-4, 0, 9, 0, 0, -4), 4),
+           ((3, 4, 0, 0, 0, 0), 5), ((2, -3, 6, 0, 0, 0), 7), ((0, 0, -2, 0, 0, 0), 2), ((1, 1, 1, -1, 0, 0), 1)]
+    tw2 = [((1, 2, 3), 3), ((1, 2, -3), 3), ((-5, 0, -1), 1), ((0, 0, 4), 4), ((0, 0, -2), 2), ((3, 4, 0), 5), ((-5, 12, 0), 13), ((0, -2, 0), 2)]
+    for s in (1e-6, 1e-3, 1.0, 1e3):
+        for a, nn in tw3:
+            A = np.array(a, dtype=float) * s
+            yield "unittwist", {"a": a, "n": nn}, float(nn), (lambda A=A: b.unittwist(A)), "base.unittwist"
+            yield "unittwist_norm", {"a": a, "n": nn}, None, \
+                (lambda A=A, nn=nn, s=s: np.r_[np.asarray(b.unittwist_norm(A)[0], dtype=float) * nn, b.unittwist_norm(A)[1] / s]), "base.unittwist_norm"
+        for a, nn in tw2:
+            A = np.array(a, dtype=float) * s
+            yield "unittwist2", {"a": a, "n": nn}, float(nn), (lambda A=A: b.unittwist2(A)), "base.unittwist2"
+            yield "unittwist2_norm", {"a": a, "n": nn}, None, \
+                (lambda A=A, nn=nn, s=s: np.r_[np.asarray(b.unittwist2_norm(A)[0], dtype=float) * nn, b.unittwist2_norm(A)[1] / s]), "base.unittwist2_norm"
     for a in vecs6:
         M = np.eye(4) + b.skewa(np.array(a, dtype=float))
         yield "tr2delta", {"a": [int(x) for x in M.ravel()]}, 1.0, (lambda M=M: b.tr2delta(M)), "base.tr2delta"
@@ -148,6 +163,12 @@ def laws(j, rng, n):
             "tr2delta(T0,T1)=tr2delta(T0^-1 T1)": (lambda: b.tr2delta(T1, T2), lambda: b.tr2delta(b.trinv(T1) @ T2), 1e-9 * sc),
             "SE3.delta=tr2delta": (lambda: SE3(T1, check=False).delta(SE3(T2, check=False)), lambda: b.tr2delta(T1, T2), 1e-12 * sc),
         }
+        # the same identity for the twist theta * S, with S a unit twist and theta given as the argument of exp
+        # (theta = 0, as int and float, is the null twist: both sides are the identity)
+        Su = S / float(np.linalg.norm(S[3:]))
+        for th in (0, 0.0, 1e-9, 0.7, -1.3, 1):
+            checks["exp(theta ad S)=Ad(S.exp(theta));theta=%r" % th] = (
+                lambda th=th: series_expm(th * Twist3(Su).ad()), lambda th=th: Twist3(Su).exp(th).Ad(), 1e-7 * sc * sc)
         for name, (lhs, rhs, tol) in checks.items():
             cid = ("law", name, band)
             try:
